@@ -343,6 +343,13 @@ def shard_fn(shard, nshards, seed, tier, exe, npairs, ncopies):
         cmds = ["B 0 " + " ".join(a), "NAV 0 5 " + " ".join(p), "SS 5 0 4", "S 0 0", "DCOPY 0 1 0", "S 1 0", "PUT 1", "S 0 0", "PUT 0"]
         cases.append((cid, cmds))
         udmeta[cid] = True
+        # ... and of nodes that carry a serializer FUNCTION of the caller's and no userdata at all (json_object_set_serializer(node, fn, NULL, NULL)): the default
+        # shallow copy accepts those, and the copy must serialize through the same function, under every flag set
+        p2 = rng.choice(cand)
+        cid = "%d.v%d" % (shard, j)
+        cmds = ["B 0 " + " ".join(a), "NAV 0 5 " + " ".join(p2), "SS 5 0 1", "S64 0", "DCOPY 0 1 0", "S64 1", "PUT 0", "S64 1", "PUT 1"]
+        cases.append((cid, cmds))
+        udmeta[cid] = ("serfn",)
     # a shallow-copy callback that gives up on its k-th node (returns -1 without touching *dst): the copy fails, what was built so far is released exactly once,
     # the source is untouched
     for j in range(max(8, ncopies // nshards // 40)):
@@ -363,6 +370,26 @@ def shard_fn(shard, nshards, seed, tier, exe, npairs, ncopies):
         sh.violation("C09/%s/%s/%s" % (kind_, frame, (meta[cr.cid][0] if cr.cid in meta else "copy-family")), "memory error (%s) at command #%d %s" % (kind_, i, cmdmap[cr.cid][i][:80]),
                      {"driver": "jcdrv", "variant": "asan", "script": cmdmap[cr.cid], "stderr": cr.stderr[-2500:]})
     for cid, lines in results.items():
+        if cid in udmeta and udmeta[cid] == ("serfn",):
+            cmds = cmdmap[cid]
+            rep = {"driver": "jcdrv", "variant": "asan", "script": cmds}
+            sh.evaluations += 3 * 64
+            key = None
+            if int(lines[4].split()[1]) != 0:
+                key, what = "copy-failed", "deep copy of a tree holding a node with a caller's serializer function (no userdata) returned %s" % lines[4].split()[1]
+            elif b"custom".hex() not in lines[3] and b'"n"'.hex() not in lines[3]:
+                raise core.Inconclusive("the custom serializer left no trace in the source's text: %s" % lines[3][:200])
+            elif lines[5] != lines[3]:
+                key, what = "copy-serializes-differently", "the copy does not serialize like its source (64 flag sets): %s vs %s" % (lines[5][:160], lines[3][:160])
+            elif lines[7] != lines[3]:
+                key, what = "copy-serializes-differently-after-source-destroyed", "the copy serializes differently once the source is gone"
+            elif lines[-1].split()[1] != "live=0":
+                key, what = "leak", "blocks left: " + lines[-1]
+            if key:
+                sh.violation("C09/serializer-function-without-userdata/" + key, what, rep)
+            sh.count("copies.of_nodes_with_serializer_function_only")
+            sh.nontrivial("\n".join(cmds[:3]))
+            continue
         if cid in udmeta and udmeta[cid] is not True:
             cmds = cmdmap[cid]
             rep = {"driver": "jcdrv", "variant": "asan", "script": cmds}
